@@ -1,2 +1,149 @@
-From ICS Require Import Base.Tree.
-Theorem placeholder : True. Proof. exact I. Qed.
+(* Property C04: validator-set cap, priority list and power cap shape the set as documented.
+   Theorems about Model/PowerCap.v (the model the correspondence driver runs); proofs are in
+   Proofs/PowerCapProofs.v.  All lists have arbitrary length; powers and caps are unbounded integers.
+
+   Notation used in the comments: vals = input validators (id, power), s = sum_pow vals,
+   n = length vals, M = raw_max_power s percent (= floor(s*percent/100), C04_max_power_floor),
+   achievable := 1 <= M /\ s <= n * M,  out = no_more_than_percent vals percent.
+   out is listed in the order of sort_desc vpow vals (C04_pc_members), so position i of out is the
+   new power of position i of the sorted input. *)
+From Coq Require Import ZArith List Bool Permutation Sorted.
+From ICS Require Import Base.Dec Base.SortDesc Base.Tree Model.PowerCap Proofs.PowerCapProofs.
+Import ListNotations.
+Open Scope Z_scope.
+
+(* ---- maxPower: the LegacyDec expression is the mathematical floor ---- *)
+Theorem C04_max_power_floor : forall s percent,
+  0 <= s -> 0 <= percent -> raw_max_power s percent = (s * percent) / 100.
+Proof. exact raw_max_power_floor. Qed.
+
+(* the monitor's boolean [achievable] is the proposition used below *)
+Theorem C04_achievable_spec : forall vals percent,
+  achievable vals percent = true <->
+  (1 <= raw_max_power (sum_pow vals) percent /\
+   sum_pow vals <= Z.of_nat (length vals) * raw_max_power (sum_pow vals) percent).
+Proof. exact achievable_spec. Qed.
+
+(* ---- power cap: same validators, only powers change ---- *)
+Theorem C04_pc_members : forall vals percent,
+  map vid (no_more_than_percent vals percent) = map vid (sort_desc vpow vals).
+Proof. exact pc_members. Qed.
+
+Theorem C04_pc_members_perm : forall vals percent,
+  Permutation (map vid (no_more_than_percent vals percent)) (map vid vals).
+Proof. exact pc_members_perm. Qed.
+
+Theorem C04_pc_length : forall vals percent,
+  length (no_more_than_percent vals percent) = length vals.
+Proof. exact pc_length. Qed.
+
+(* ---- achievable: nobody exceeds floor(s*percent/100) ---- *)
+Theorem C04_pc_bound : forall vals percent,
+  1 <= raw_max_power (sum_pow vals) percent /\
+  sum_pow vals <= Z.of_nat (length vals) * raw_max_power (sum_pow vals) percent ->
+  Forall (fun o => vpow o <= raw_max_power (sum_pow vals) percent) (no_more_than_percent vals percent).
+Proof. exact pc_bound. Qed.
+
+(* ---- achievable: the total is exactly the uncapped total ---- *)
+Theorem C04_pc_sum : forall vals percent,
+  1 <= raw_max_power (sum_pow vals) percent /\
+  sum_pow vals <= Z.of_nat (length vals) * raw_max_power (sum_pow vals) percent ->
+  sum_pow (no_more_than_percent vals percent) = sum_pow vals.
+Proof. exact pc_sum. Qed.
+
+(* ---- nobody is reduced to zero (achievable or not) ---- *)
+Theorem C04_pc_positive : forall vals percent,
+  Forall (fun v => 1 <= vpow v) vals -> 1 <= percent ->
+  Forall (fun o => 1 <= vpow o) (no_more_than_percent vals percent).
+Proof. exact pc_positive. Qed.
+
+(* ---- relative order by power is kept (achievable or not): pairs (input validator, output
+   validator) in sorted order; a strictly smaller input never gets a strictly larger output ---- *)
+Theorem C04_pc_order : forall vals percent,
+  ForallOrdPairs
+    (fun x y : val * val => vpow (fst y) < vpow (fst x) -> vpow (snd y) <= vpow (snd x))
+    (combine (sort_desc vpow vals) (no_more_than_percent vals percent)).
+Proof. exact pc_order. Qed.
+
+(* the same by position, for any two positions *)
+Theorem C04_pc_order_nth : forall vals percent (i j : nat) (d : val),
+  (i < length vals)%nat -> (j < length vals)%nat ->
+  vpow (nth j (sort_desc vpow vals) d) < vpow (nth i (sort_desc vpow vals) d) ->
+  vpow (nth j (no_more_than_percent vals percent) d) <= vpow (nth i (no_more_than_percent vals percent) d).
+Proof. exact pc_order_nth. Qed.
+
+(* ---- not achievable: everybody receives the same power max(M,1) ---- *)
+Theorem C04_pc_infeasible : forall vals percent,
+  Forall (fun v => 1 <= vpow v) vals -> 1 <= percent ->
+  ~ (1 <= raw_max_power (sum_pow vals) percent /\
+     sum_pow vals <= Z.of_nat (length vals) * raw_max_power (sum_pow vals) percent) ->
+  Forall (fun o => vpow o = Z.max (raw_max_power (sum_pow vals) percent) 1)
+         (no_more_than_percent vals percent).
+Proof. exact pc_infeasible. Qed.
+
+(* ---- validator-set cap ---- *)
+Theorem C04_cap_len : forall top_n set_cap l,
+  top_n = 0 -> set_cap <> 0 -> 0 <= set_cap ->
+  Z.of_nat (length (cap_validator_set top_n set_cap l)) <= set_cap.
+Proof. exact cap_len. Qed.
+
+Theorem C04_cap_prefix : forall top_n set_cap l,
+  (exists k, cap_validator_set top_n set_cap l = firstn k l) /\
+  (0 < top_n \/ set_cap = 0 -> cap_validator_set top_n set_cap l = l).
+Proof. exact cap_prefix. Qed.
+
+(* ---- ranking: priority-listed first, then by descending power ---- *)
+Theorem C04_rank_sorted : forall prio eligible,
+  StronglySorted (fun a b => outranks prio b a = false)
+    (fst (partition_priority prio eligible) ++ snd (partition_priority prio eligible)).
+Proof. exact ranked_sorted. Qed.
+
+(* no excluded eligible validator strictly outranks an included one *)
+Theorem C04_cap_rank : forall prio k eligible,
+  let ranked := fst (partition_priority prio eligible) ++ snd (partition_priority prio eligible) in
+  let capped := cap_validator_set 0 k ranked in
+  Permutation ranked eligible /\
+  ranked = capped ++ skipn (length capped) ranked /\
+  forall x y, In x capped -> In y (skipn (length capped) ranked) -> outranks prio y x = false.
+Proof. exact cap_rank. Qed.
+
+(* ---- stage order inside ComputeNextValidators: partition, then set cap, then power cap ---- *)
+Theorem C04_compose : forall prio top_n set_cap power_cap eligible,
+  shape prio top_n set_cap power_cap eligible =
+  cap_validators_power power_cap
+    (cap_validator_set top_n set_cap
+       (fst (partition_priority prio eligible) ++ snd (partition_priority prio eligible))).
+Proof. exact shape_compose. Qed.
+
+(* ---- non-vacuity: the example from the Go source, powers 60, 138, 559 ---- *)
+Example C04_ex_achievable :
+  let vals := [(1, 60); (2, 138); (3, 559)] in
+  forallb (fun v => 1 <=? vpow v) vals = true /\
+  raw_max_power (sum_pow vals) 35 = 264 /\
+  achievable vals 35 = true /\
+  no_more_than_percent vals 35 = [(3, 264); (2, 264); (1, 229)].
+Proof. vm_compute. repeat split; reflexivity. Qed.
+
+Example C04_ex_infeasible :
+  let vals := [(1, 60); (2, 138); (3, 559)] in
+  forallb (fun v => 1 <=? vpow v) vals = true /\
+  raw_max_power (sum_pow vals) 20 = 151 /\
+  achievable vals 20 = false /\
+  no_more_than_percent vals 20 = [(3, 151); (2, 151); (1, 151)].
+Proof. vm_compute. repeat split; reflexivity. Qed.
+
+(* a case where the floor is 0 and the cap is lifted to 1 *)
+Example C04_ex_floor_zero :
+  let vals := [(1, 1); (2, 1); (3, 1)] in
+  raw_max_power (sum_pow vals) 30 = 0 /\
+  achievable vals 30 = false /\
+  no_more_than_percent vals 30 = [(1, 1); (2, 1); (3, 1)].
+Proof. vm_compute. repeat split; reflexivity. Qed.
+
+(* set cap 2 with a priority list: validator 4 (priority-listed, lowest power) is kept,
+   validator 2 (second highest power) is excluded *)
+Example C04_ex_rank :
+  let eligible := [(1, 50); (2, 40); (3, 30); (4, 10)] in
+  shape [4] 0 2 0 eligible = [(4, 10); (1, 50)] /\
+  shape [4] 0 2 60 eligible = [(1, 36); (4, 24)].
+Proof. vm_compute. repeat split; reflexivity. Qed.
